@@ -9,6 +9,7 @@ import (
 
 	sif "github.com/lidofinance/dc4bc/fsm/state_machines/signing_proposal_fsm"
 	"github.com/lidofinance/dc4bc/fsm/types/requests"
+	"github.com/lidofinance/dc4bc/storage"
 
 	"verif/mc/kit"
 	"verif/mc/world"
@@ -37,6 +38,23 @@ func answersIn(s *worldx.State) map[string]map[int]bool {
 	return out
 }
 
+// lineLimitBatch names the batch of one file whose size is the largest a proposal can carry.
+const lineLimitBatch = "batch-one-payload-at-the-line-limit"
+
+// largestProposablePayload finds, in steps of 24 bytes, the largest single payload whose proposal
+// still fits into one board line (the board's 1 MiB limit; id and offset are assigned on append).
+func largestProposablePayload() []byte {
+	for size := 600000; size > 500000; size -= 24 {
+		pl := bytes.Repeat([]byte{'z'}, size)
+		req := requests.SigningBatchProposalStartRequest{BatchID: lineLimitBatch, ParticipantId: 0, CreatedAt: world.T0, SigningTasks: []requests.SigningTask{{MessageID: "limit-msg", File: "limit-file", Payload: pl}}}
+		m := storage.Message{DkgRoundID: strings.Repeat("0", 64), Event: "event_signing_start", Data: world.MustJSON(req), Signature: make([]byte, 64), SenderAddr: world.NodeName(0)}
+		if len(world.MustJSON(m))+64 <= world.MaxBoardLine {
+			return pl
+		}
+	}
+	return nil
+}
+
 // livenessCheck is the C07 invariant, evaluated on every state.
 func livenessCheck(r *kit.Run, sw *SignWorld, o *sigOracle, cfg SignCfg, k *worldx.Worker, s *worldx.State) {
 	ans := answersIn(s)
@@ -58,7 +76,11 @@ func livenessCheck(r *kit.Run, sw *SignWorld, o *sigOracle, cfg SignCfg, k *worl
 					}
 				}
 				if !ok {
-					r.Violation("C07/batch-not-reconstructed", fmt.Sprintf("%s: node %d consumed the whole board, batch %s has %d correct answers on it (t=%d), but the node holds no valid signature for message %s (round state %s)", cfg, j, b.ID, len(ans[b.ID]), sw.T, id, sn.RoundState(sw.Round)), s.Trace())
+					key := "C07/batch-not-reconstructed"
+					if b.ID == lineLimitBatch {
+						key += "/one-payload-at-the-line-limit"
+					}
+					r.Violation(key, fmt.Sprintf("%s: node %d consumed the whole board, batch %s has %d correct answers on it (t=%d), but the node holds no valid signature for message %s (round state %s)", cfg, j, b.ID, len(ans[b.ID]), sw.T, id, sn.RoundState(sw.Round)), s.Trace())
 					return
 				}
 			}
@@ -79,7 +101,11 @@ func terminalCheck(r *kit.Run, sw *SignWorld, cfg SignCfg, k *worldx.Worker, s *
 				}
 			}
 			if !open {
-				r.Violation("C07/not-idle-at-quiescence", fmt.Sprintf("%s: at quiescence node %d is in %s", cfg, j, st), s.Trace())
+				key := "C07/not-idle-at-quiescence"
+				if len(cfg.Batches) == 1 && cfg.Batches[0].ID == lineLimitBatch {
+					key += "/one-payload-at-the-line-limit"
+				}
+				r.Violation(key, fmt.Sprintf("%s: at quiescence node %d is in %s", cfg, j, st), s.Trace())
 				return
 			}
 		}
@@ -157,6 +183,11 @@ func c07(tier string, args []string) int {
 		escTasks = append(escTasks, requests.SigningTask{MessageID: fmt.Sprintf("esc-%02d", i), File: strings.Repeat("&", 1000) + fmt.Sprint(i), Payload: []byte(fmt.Sprintf("payload %d", i))})
 	}
 	jobs = append(jobs, job{n: 3, t: 2, cfgs: mk(3, 2, []Batch{{ID: "batch-escaped-names", Tasks: escTasks}}, [][]int{nil}, none)})
+	// ... and one file of the largest size a proposal can carry (the reconstruction broadcast
+	// repeats the payload in a slightly longer envelope)
+	if pl := largestProposablePayload(); pl != nil {
+		jobs = append(jobs, job{n: 2, t: 2, cfgs: mk(2, 2, []Batch{{ID: lineLimitBatch, Tasks: []requests.SigningTask{{MessageID: "limit-msg", File: "limit-file", Payload: pl}}}}, [][]int{nil}, none)})
+	}
 	if tier == "thorough" {
 		jobs = append(jobs,
 			job{n: 3, t: 2, cfgs: mk(3, 2, []Batch{b1, b2, b3}, [][]int{nil}, none)},
